@@ -217,11 +217,16 @@ pub fn replay(args: &[String]) -> i32 {
         if case["op"] == "choice" {
             let src = elems(&case["coll"]);
             for fl in FLAVOURS {
-                let Ok(Some((nums, samples))) = guarded(|| probe(fl, &src, reps, &mut rng)) else {
-                    if fl == "macro" || src.len() > 7 { continue; }
-                    n += 1; bad += 1;
-                    out.line(&json!({"kind": "mismatch", "case": c, "flavour": fl, "observed": {"panic": true}}));
-                    continue;
+                let (nums, samples) = match guarded(|| probe(fl, &src, reps, &mut rng)) {
+                    Ok(Some(p)) => p,
+                    // the flavour does not exist for this length (macro: literal lists; arrays: up to 7
+                    // members, and zero-length ones live in the target `vh-empty`)
+                    Ok(None) => continue,
+                    Err(m) => {
+                        n += 1; bad += 1;
+                        out.line(&json!({"kind": "mismatch", "case": c, "flavour": fl, "observed": {"panic": m}}));
+                        continue;
+                    }
                 };
                 n += 1;
                 let allowed = arr(&c["allowed"]);
